@@ -173,7 +173,7 @@ def _prepare(crate_dir, name):
             f.write(want)
     lock = os.path.join(crate_dir, "Cargo.lock")
     if not os.path.exists(lock):
-        shutil.copy(os.path.join(build.REPO, "Cargo.lock"), lock)
+        shutil.copy(os.path.join(build.REPO, "Cargo.lock") if os.path.exists(os.path.join(build.REPO, "Cargo.lock")) else "/repo/Cargo.lock", lock)
 
 
 def _write_main(crate_dir, prefix, entries, with_main, nonce=0):
